@@ -80,6 +80,7 @@ Definition target (x : sop) : option nat :=
   | SDel ti _ _ _ => Some (Z.to_nat ti)
   | SFreeze ti => Some (Z.to_nat ti)
   | SClone _ _ => None
+  | SPop ti _ | SPopFirst ti | SClear ti | SSetDefault ti _ _ => Some (Z.to_nat ti)
   end.
 
 Lemma nth_set_nth_other {A} i j (x : A) l : i <> j -> nth_error (set_nth i x l) j = nth_error l j.
@@ -134,14 +135,15 @@ Proof.
     intros [Heq|(Hlt & Hf)]; [congruence|]. unfold frw in Hf. rewrite Hb in Hf. congruence.
 Qed.
 
-Theorem exec_isolated w x w' o :
-  WI w -> exec w x = (w', o) ->
+Lemma exec_prim_isolated w x w' o :
+  WI w -> exec_prim w x = (w', o) ->
   WI w' /\
   forall k bk, target x <> Some k -> nth_error (sw_trees w) k = Some bk ->
     nth_error (sw_trees w') k = Some bk /\
     forall fuel, abs fuel (sw_store w') (sb_root bk) = abs fuel (sw_store w) (sb_root bk).
 Proof.
-  intros HW H. pose proof HW as (Hok & Htr). destruct x; cbn [exec target] in *.
+  intros HW H. pose proof HW as (Hok & Htr). destruct x; cbn [exec_prim target] in *;
+    try (inversion H; subst; split; [assumption|]; intros; split; auto; fail).
   - (* new tree *)
     unfold s_new in H. destruct (Z.to_nat t <? 3)%nat.
     { inversion H; subst. split; [assumption|]. intros; split; auto. }
@@ -251,6 +253,46 @@ Proof.
            eapply vis_ext_fun; [|exact Hold]. intros a d. apply ancw_ext. intros e. now rewrite Hfr.
     + intros k bk _ Hk. split; [|reflexivity].
       rewrite nth_error_app1; [assumption|]. apply nth_error_Some. congruence.
+Qed.
+
+(* the mixin operations are compositions of primitive operations on the same tree *)
+Lemma s_clear_isolated ti : forall fuel w,
+  WI w ->
+  WI (s_clear fuel w ti) /\
+  forall k bk, Z.to_nat ti <> k -> nth_error (sw_trees w) k = Some bk ->
+    nth_error (sw_trees (s_clear fuel w ti)) k = Some bk /\
+    forall f, abs f (sw_store (s_clear fuel w ti)) (sb_root bk) = abs f (sw_store w) (sb_root bk).
+Proof.
+  induction fuel as [|fuel IH]; intros w HW; cbn [s_clear].
+  { split; [assumption|]. intros; split; auto. }
+  destruct (s_first w ti) as [e|]; [|split; [assumption|]; intros; split; auto].
+  destruct (exec_prim w (SDel ti (fst e) None 2)) as (w1 & o1) eqn:E1. cbn [fst].
+  destruct (exec_prim_isolated _ _ _ _ HW E1) as (HW1 & Hiso1). cbn [target] in Hiso1.
+  destruct (IH w1 HW1) as (HW2 & Hiso2). split; [assumption|].
+  intros k bk Hne Hk. destruct (Hiso1 k bk) as (Hk1 & Ha1); [congruence|assumption|].
+  destruct (Hiso2 k bk Hne Hk1) as (Hk2 & Ha2). split; [assumption|]. intros f. now rewrite Ha2, Ha1.
+Qed.
+
+Theorem exec_isolated w x w' o :
+  WI w -> exec w x = (w', o) ->
+  WI w' /\
+  forall k bk, target x <> Some k -> nth_error (sw_trees w) k = Some bk ->
+    nth_error (sw_trees w') k = Some bk /\
+    forall fuel, abs fuel (sw_store w') (sb_root bk) = abs fuel (sw_store w) (sb_root bk).
+Proof.
+  intros HW H.
+  assert (Htriv : forall w0 o0, (w, o) = (w0, o0) -> WI w0 /\ forall k bk, target x <> Some k -> nth_error (sw_trees w) k = Some bk ->
+             nth_error (sw_trees w0) k = Some bk /\ forall fuel, abs fuel (sw_store w0) (sb_root bk) = abs fuel (sw_store w) (sb_root bk)).
+  { intros w0 o0 E. inversion E; subst. split; [assumption|]. intros; split; auto. }
+  destruct x; cbn [exec] in H; try (exact (exec_prim_isolated _ _ _ _ HW H)).
+  - destruct (s_lookup w ti k); [|inversion H; subst; split; [assumption|]; intros; split; auto].
+    destruct (exec_prim_isolated _ _ _ _ HW H) as (HW' & Hiso). split; [assumption|]. exact Hiso.
+  - destruct (s_first w ti) as [e|]; [|inversion H; subst; split; [assumption|]; intros; split; auto].
+    destruct (exec_prim_isolated _ _ _ _ HW H) as (HW' & Hiso). split; [assumption|]. exact Hiso.
+  - inversion H; subst w' o. destruct (s_clear_isolated ti (S (tree_size w ti)) w HW) as (HW' & Hiso).
+    split; [assumption|]. intros k bk Hne Hk. apply Hiso; [|assumption]. cbn [target] in Hne. congruence.
+  - destruct (s_lookup w ti k); [inversion H; subst; split; [assumption|]; intros; split; auto|].
+    destruct (exec_prim_isolated _ _ _ _ HW H) as (HW' & Hiso). split; [assumption|]. exact Hiso.
 Qed.
 
 (* ---------------------------------------------------------------- all histories *)
